@@ -344,6 +344,20 @@ Definition spec_check (sp : spelling) (r : result) : bool :=
 End Mirrors.
 
 (* ------------------------------------------------------------------ *)
+(* side conditions of the theorems                                     *)
+(* ------------------------------------------------------------------ *)
+Fixpoint nodupb (l : list key) : bool :=
+  match l with
+  | [] => true
+  | k :: r => negb (key_in k r) && nodupb r
+  end.
+
+(* within one type (inherited members included) no two elements and no two
+   attributes share a name: "Element Declarations Consistent" of XSD *)
+Definition wf_names (W : wsdl) : bool :=
+  forallb (fun t => nodupb (ordering (all_items W t))) (w_types W).
+
+(* ------------------------------------------------------------------ *)
 (* what the harness evaluates                                          *)
 (* ------------------------------------------------------------------ *)
 Record ccase := mkCC {
